@@ -30,7 +30,7 @@ fn prop_def(id: &str) -> Option<PropDef> {
         "C16" => PropDef { parts: props::c16::parts(), rule: props::c16::RULE, assumptions: props::c16::ASSUMPTIONS, literal: None },
         "C10" => PropDef { parts: props::c10::parts(), rule: props::c10::RULE, assumptions: props::c10::ASSUMPTIONS, literal: None },
         "C18" => PropDef { parts: props::c18::parts(), rule: props::c18::RULE, assumptions: props::c18::ASSUMPTIONS, literal: None },
-        "C11" => PropDef { parts: props::c11::parts(), rule: props::c11::RULE, assumptions: props::c11::ASSUMPTIONS, literal: None },
+        "C11" => PropDef { parts: props::c11::parts(), rule: props::c11::RULE, assumptions: props::c11::ASSUMPTIONS, literal: Some(props::c11::check_literal) },
         "C19" => PropDef { parts: props::c19::parts(), rule: props::c19::RULE, assumptions: props::c19::ASSUMPTIONS, literal: None },
         "C20" => PropDef { parts: props::c20::parts(), rule: props::c20::RULE, assumptions: props::c20::ASSUMPTIONS, literal: None },
         _ => return None,
